@@ -167,7 +167,8 @@ Print Assumptions C01_lookup_meaning.
 
 (* ---- 5b. none of this depends on what was called before on the same object.  For EVERY history
    of calls on one ELFFile (Model/C01History.v: enumerations abandoned after k items — a generator
-   that is never exhausted —, full enumerations, with or without type filter, has_section /
+   that is never exhausted —, full enumerations of sections and of segments (every Segment object
+   created anew, also after the name map exists), with or without type filter, has_section /
    get_section_index / get_section_by_name, in any order, starting from the fresh object), each
    answer is the history-free one above, and the object's _section_name_map is None or the
    COMPLETE map at every point *)
